@@ -45,8 +45,35 @@ fn utf8_patterns(len: usize) -> Vec<Vec<u8>> {
             out.push(v);
         }
     }
+    // all-multi-byte texts in every phase: j ASCII bytes, then the unit repeated, so that for one of
+    // the phases any fixed byte offset >= j falls inside a character (code that slices a text at a
+    // byte offset shows here)
+    out.extend(phase_texts(len));
     out.sort();
     out.dedup();
+    out
+}
+
+/// valid UTF-8 of exactly `len` bytes made of `j` ASCII bytes followed by one multi-byte unit
+/// repeated (and ASCII filling at the very end where the unit does not fit), for every phase j
+pub fn phase_texts(len: usize) -> Vec<Vec<u8>> {
+    let mut out = Vec::new();
+    for unit in ["\u{e9}", "\u{2603}", "\u{1F600}"] {
+        let u = unit.as_bytes();
+        for j in 0..u.len() {
+            if j > len {
+                continue;
+            }
+            let mut v = vec![b'a'; j];
+            while v.len() + u.len() <= len {
+                v.extend_from_slice(u);
+            }
+            while v.len() < len {
+                v.push(b'z');
+            }
+            out.push(v);
+        }
+    }
     out
 }
 
@@ -74,6 +101,14 @@ pub fn decode_values(k: Kind, tier: Tier) -> Vec<Vec<u8>> {
                         v.extend_from_slice(reason);
                         out.push(v);
                     }
+                }
+            }
+            // reason phrases made of multi-byte characters in every phase, at several lengths
+            for len in [5usize, 33, 64, 65, 66, 67, 100, 129, 200, 257, 300, 511, 762, 763] {
+                for t in phase_texts(len) {
+                    let mut v = vec![0, 0, 4, 20];
+                    v.extend_from_slice(&t);
+                    out.push(v);
                 }
             }
             // reserved leading bytes are ignored
@@ -282,6 +317,28 @@ pub fn encode_values(k: Kind, seed: u64) -> Vec<(Vec<u8>, u128)> {
                     for t in tids {
                         let mut v = vec![0, 2, (p >> 8) as u8, p as u8];
                         v.extend_from_slice(&a);
+                        out.push((v, t));
+                    }
+                }
+            }
+            // special-purpose addresses (code that classifies or canonicalises addresses shows here)
+            for txt in ["::", "::1", "::ffff:1.2.3.4", "::ffff:33.18.164.66", "::ffff:255.255.255.255", "::1.2.3.4", "64:ff9b::c000:201", "fe80::1", "ff02::1", "2002:c000:201::", "fc00::", "100::", "0.0.0.0", "255.255.255.255", "127.0.0.1", "224.0.0.1", "169.254.0.1"] {
+                let ip: std::net::IpAddr = txt.parse().unwrap();
+                for p in [0u16, 3478, 0xFFFF] {
+                    for t in [tids[0], tids[3]] {
+                        let mut v = match ip {
+                            std::net::IpAddr::V4(a) => {
+                                let mut v = vec![0, 1, (p >> 8) as u8, p as u8];
+                                v.extend_from_slice(&a.octets());
+                                v
+                            }
+                            std::net::IpAddr::V6(a) => {
+                                let mut v = vec![0, 2, (p >> 8) as u8, p as u8];
+                                v.extend_from_slice(&a.octets());
+                                v
+                            }
+                        };
+                        v.shrink_to_fit();
                         out.push((v, t));
                     }
                 }
